@@ -134,6 +134,29 @@ func streamRoute(c *ctx) {
 		rs.close()
 		c.w.Emit("route-twice tcp bind=fixed", from, "route/tcp-same-endpoint-repeated")
 	}
+	// a broadcast-routed call from a fixed bind port that times out, then a call to a configured controller from the
+	// same port: the first call must have given the port back (whatever path it failed on)
+	{
+		bind := freePort()
+		silent := newUDPResponder("127.0.0.6", nil)
+		rs := newUDPResponder("127.0.0.7", echo(func() time.Duration { return 3 * time.Millisecond }))
+		sap := netip.MustParseAddrPort(silent.addr())
+		ap := netip.MustParseAddrPort(rs.addr())
+		u := uhppote.NewUHPPOTE(types.BindAddrFrom(netip.MustParseAddr("127.0.0.9"), uint16(bind)), types.BroadcastAddrFrom(sap.Addr(), sap.Port()), types.ListenAddrFrom(netip.MustParseAddr("127.0.0.1"), 60001), T,
+			[]uhppote.Device{{DeviceID: 5300002, Address: types.ControllerAddrFrom(ap.Addr(), ap.Port()), Protocol: "udp"}}, false)
+		_, err1 := getCard(u, 5300001, 424242) // unconfigured: broadcast, nobody answers
+		_, err2 := getCard(u, 5300002, 424242)
+		time.Sleep(20 * time.Millisecond)
+		from := "from-bound-port"
+		rs.mu.Lock()
+		if len(rs.from) != 1 || rs.from[0] != fmt.Sprintf("127.0.0.9:%d", bind) {
+			from = fmt.Sprintf("heard=%d", len(rs.from))
+		}
+		rs.mu.Unlock()
+		silent.close()
+		rs.close()
+		c.w.Emit("route-after-timeout udp", fmt.Sprintf("first:%s second:%s %s", map[bool]string{true: "ok", false: "err"}[err1 == nil], map[bool]string{true: "ok", false: "err"}[err2 == nil], from), "route/after-a-timed-out-broadcast")
+	}
 	// the (bind address:port -> controller) TCP 4-tuple is taken by another connection when the call is made (another process
 	// sharing the bind port, or the previous connection still in TIME_WAIT): the call may fail, but nothing may reach the
 	// controller from any other source address or port
